@@ -5,10 +5,12 @@ raises at any position, an external thread calls maybe_stop(exc?) at any point, 
 timeout configured — any parked wait may time out (a scheduler choice).
 """
 from harness import lib_queue as lq
+from harness import lib_queue_backends as lqb
 
 PID = 'C05'
 TITLE = 'Failures and stop requests propagate through queues without hanging'
-LEAN_MODULES = ['MlModel.Properties.C05', 'MlModel.Properties.C05Live', 'MlModel.Properties.C05Observe', 'MlModel.Witness.C05']
+LEAN_MODULES = ['MlModel.Properties.C05', 'MlModel.Properties.C05Live', 'MlModel.Properties.C05Observe', 'MlModel.Properties.C05Backend',
+                'MlModel.Witness.C05']
 TRUSTED = list(__import__('harness.props.c04', fromlist=['TRUSTED']).TRUSTED)
 ASSUMPTIONS = ['a timeout is modelled as a scheduler choice available whenever a thread is parked with a timeout configured']
 RULE8 = (' Round 8 (observers after the fact, non-Exception faults): every failing item raises ValueError or, p=0.35, one of '
@@ -19,7 +21,16 @@ RULE8 = (' Round 8 (observers after the fact, non-Exception faults): every faili
          'exception; put / get timeouts) and only then one or two further consumers (get loop / get_batch loop) start; after EVERY run '
          'that ended, the main thread probes the queue again through get / get_nowait / get_batch / iteration (q.exception must still '
          'be set, every probe has to end with the failure, never StopIteration / Empty / [] / a wait); the observed event orders are '
-         'counted (histogram observer) and the promised ones enforced (exit 2)')
+         'counted (histogram observer) and the promised ones enforced (exit 2). Round 10 (queue BACKENDS): the fault events (failing '
+         'item / clean stop / stop with an exception / timeout, rotating) over every buffer the constructors accept (see C04: default, '
+         'queue.Queue, queue.SimpleQueue, asyncio.Queue, from_queue, AsyncIteratorQueue, duck buffers; bounded and unbounded; producers-first '
+         '/ consumers-first / random / PCT), 16 cases per arm (quick), coverage per arm enforced (ran, Empty met, bounded: Full met); 3 more '
+         'model-guided configurations on asyncio.Queue / AsyncIteratorQueue / SimpleQueue; async API under faults: an async producer '
+         '(async_enqueue_from_iterator on the deterministic event loop) whose source raises or that is stopped by maybe_stop() / '
+         'maybe_stop(exc) from a thread, with async and sync consumers, projected onto the LTS (the loop-head read of enqueue_done happens '
+         'one await point later than the LTS fuses it: a producer the LTS leaves in front of its next pull while the real one has seen '
+         'the stop and returned is accepted and counted, histogram backend / async:late_loop_check); new oracle clause: once a stop request '
+         'or a failing producer is complete every other producer pulls at most one more element from its source')
 RULE = ('as C04 plus: each producer source fails with p=0.4 at a random position; an extra thread calls maybe_stop() or '
         'maybe_stop(ValueError) (each p=0.25); timeout configured with p=0.3 (timeout choices drawn with weight 0.1); '
         'non-trivial = a fault event actually happened in the run (a consumer or producer ended with an error, or a stop '
@@ -57,6 +68,28 @@ def gen_cases(ctx):
   for i in range(120 if ctx.quick else 3000):
     yield with_faults(rng, blocked_producers_case(rng), ctx)
     ctx.count('mode', 'blocked_producers')
+  # round 10: the fault events over every BACKEND the constructors accept (bounded and unbounded; a quarter of the
+  # schedules producers-first, a quarter consumers-first): a failing item / a stop request without / with an exception /
+  # a timeout, rotating
+  for k in range(16 if ctx.quick else 320):
+    for j, (b, bd) in enumerate(lqb.sync_arm_list()):
+      ev = ['fail', 'stop', 'excstop', 'timeout'][(k // 4 + j) % 4]
+      case = lqb.gen_backend_case(
+          rng, k, b, bd, 3 if ctx.quick else 5, fail_p=0.8 if ev == 'fail' else 0.0, timeout=ev == 'timeout',
+          stopper=dict(kind='stopper') if ev == 'stop' else dict(kind='stopper', exc='ValueError') if ev == 'excstop' else None)
+      case['mode'] = 'backend:' + ev
+      ctx.count('mode', case['mode'])
+      ctx.count('backend_cases', lqb.arm(case))
+      yield with_faults(rng, case, ctx)
+  # the async API under the fault events: an async producer (async_enqueue_from_iterator on a deterministic event loop)
+  # whose source raises / that is stopped by maybe_stop() / maybe_stop(exc) from a thread; async and sync consumers
+  for k in range(9 if ctx.quick else 180):
+    for ab, bds in lqb.ASYNC_BUFFERS.items():
+      for bd in bds:
+        case = lqb.gen_async_fault_case(rng, k, ab, bd, 3 if ctx.quick else 5)
+        case['mode'] = 'async:' + case['event']
+        ctx.count('mode', case['mode'])
+        yield case
 
 
 POST = ['get', 'get_nowait', 'get_batch', 'iter']
@@ -154,6 +187,10 @@ GUIDED_CONFIGS = [
     _cfg(0, [_P([0, 1]), _P([100], 901), _B(2, True), _S('ValueError')]),
     _cfg(1, [_P([0, 1, 2]), _G, _B(2, True)], timeout=True),
     _cfg(2, [_P([0, 1, 'fail']), _P([100, 101, 102], 901), _B(3, False), _S()], timeout=True),
+    # round 10: the same LTS walks replayed on the other backends (the LTS is backend-independent)
+    dict(_cfg(1, [_P([0, 'fail', 1]), _P([100, 101], 901), _G, _B(2, True)]), backend='asyncio.Queue'),
+    dict(_cfg(1, [_P([0, 1, 2]), _G, _B(2, True), _S()], timeout=True), backend='AsyncIteratorQueue', max_enq=0),
+    dict(_cfg(0, [_P([0, 1]), _P([100, 'fail'], 901), _B(2, True), _S('ValueError')]), backend='queue.SimpleQueue'),
 ]
 
 
@@ -167,14 +204,44 @@ def extra(ctx):
                    f'promised event order ({len(PROMISED)} orders promised, missing {missing})')
   if missing:
     from harness.core import InfraError
-    raise InfraError(f'C05: promised event orders not exercised by any run that ended: {missing}')
+    if not (sum(lqb.VERDICT.values()) or ctx.extra_disagreements or ctx.extra_oracle_failures):
+      raise InfraError(f'C05: promised event orders not exercised by any run that ended: {missing}')
+  # the async arms under faults: every buffer x bounded/unbounded ran (their Full / Empty coverage is enforced by C04)
+  lqb.enforce(ctx, extra_required=[k for k in lqb.async_required() if (k.endswith('/async') or
+                                   k in ('async_api:async_enqueue_from_iterator', 'async_api:sync'))])
 
 
-run_impl = lq.run_impl
-model_requests_obs = lq.model_requests_obs
+def run_impl(case):
+  return lqb.run_impl(case, lq.run_impl)
+
+
+def model_requests_obs(case, obs):
+  if lqb.kind(case) == 'async':
+    return [lqb.async_model_request(case, obs)]
+  return lq.model_requests_obs(case, obs)
+
+
 model_requests = None
-model_obs = lq.model_obs
-compare = lq.compare
+
+
+def model_obs(case, resps):
+  if lqb.kind(case) == 'async':
+    return dict(kind='async', resp=resps[0])
+  return lq.model_obs(case, resps)
+
+
+def compare(obs, m):
+  if isinstance(m, dict) and m.get('kind') == 'async':
+    d = lqb.async_compare(obs, m['resp'])
+    if obs.get('late_loop_check'):
+      lqb.COV['async:late_loop_check'] += 1
+  else:
+    d = lq.compare(obs, m)
+  if d is not None:
+    lqb.VERDICT['disagreement'] += 1
+  if isinstance(obs, dict) and obs.get('oracle_new_failure'):
+    lqb.VERDICT['oracle failure outside the known input classes'] += 1
+  return d
 
 
 def history(case, obs):
@@ -206,6 +273,13 @@ def history(case, obs):
 
 
 def oracle(case, obs):
+  what = _oracle(case, obs)
+  if what is not None and finding(case, what) is None:
+    obs['oracle_new_failure'] = True      # travels to the main process with the observation (see lqb.enforce)
+  return what
+
+
+def _oracle(case, obs):
   if obs['outcome'] != 'done':
     return f"{obs['outcome']}: threads blocked forever {obs['blocked']} after {len(obs['choices'])} steps"
   w = lq.safety_oracle(case, obs)
@@ -242,6 +316,19 @@ def oracle(case, obs):
     o, x = th[i]['outcome'], excs[i]
     if o and o['raise'].startswith('Base:'):
       return f'producer {i} ended with {x}, which no source raised'
+  # ---- "all other producers stop": once a stop request is complete (its thread has ended) or a failing producer has
+  # ended, a producer pulls at most ONE more element from its source (the pull it may already be committed to)
+  h0 = history(case, obs)
+  for ev in h0['events']:
+    if ev[1] in ('cleanstop', 'excstop', 'fail', 'puttimeout') and ev[2] in h0['last'] and obs['threads'][ev[2]]['done']:
+      at = h0['last'][ev[2]]
+      for i, _ in lq.producers(case):
+        if i == ev[2]:
+          continue
+        later = [k for k, (tid, lbl) in enumerate(obs['trace']) if tid == i and lbl == 'next' and k > at]
+        if len(later) > 1:
+          return (f'producer {i} pulled {len(later)} more elements from its source after the {ev[1]} of thread {ev[2]} was '
+                  f'complete (step {at}): it did not stop')
   # ---- observers after the fact (round 8): a recorded failure is never cleared; every consumer that arrives after it
   # was recorded observes it -- whatever stop requests / timeouts happened in between
   h = history(case, obs)
@@ -333,6 +420,10 @@ def observe(case, obs):
 
 def nontrivial(case, obs):
   observe(case, obs)
+  if lqb.kind(case) == 'async':
+    lqb.note_async(case, obs)
+  else:
+    lqb.note_run(case, obs)
   ch = [c[0] for c in obs['choices']]
   turns = sum(1 for a, b in zip(ch, ch[1:]) if a != b)
   fault = any(t['outcome'] and t['outcome']['raise'] != 'StopIteration' for t in obs['threads']) or \
